@@ -16,6 +16,10 @@ CLAIMED['C07'] = ('Coq refinement proofs (simulation relation per backend, induc
          'proof: each backend model answers exactly as the abstract map task->{key->value} for EVERY finite sequence of set/get/in_/remove/remove_all/close-and-reopen; corollaries: removed tasks never reappear, reopen preserves contents, the three backends are observationally equal; the two pre-repair behaviours are kept as legacy-refuted witnesses',
          'trusted: Coq kernel; hand model Model/Backends.v tied by exhaustive op sequences (len<=3 quick, <=4 thorough) + sampled/random ones against the real classes; JSON codec round-trip is a hypothesis (codec_ok) exercised on unicode/nested values; dbm.dumb, sqlite3, the file system are oracles',
          'DESIGN.md 5-C07')
+CLAIMED['C16'] = ('Coq theorems over Model/CmdParse.v (a concrete model of getopt.getopt and of CmdOption/CmdParse/DefaultUpdate with the parser state threaded explicitly): round-trip of rendered command lines by induction over the unit list, rejection, precedence, purity + correspondence against the real classes',
+         'proof: for every well-formed option spec and every sequence of rendered units (clusters, -sV, -s V, --l=V, --l V, flags, inverse flags) followed by positionals, parse returns exactly the written values (last wins, lists accumulate after the configured value), the positionals unchanged, and leaves the parser state unchanged; unknown options / missing or ill-typed values / invalid choices (also items of list options) give a parse error; precedence cmd line > env > DOIT_CONFIG > config file > default; legacy-refuted witnesses for the repaired defects.  Abbreviated long options are covered by the correspondence only',
+         'trusted: Coq kernel; hand model Model/CmdParse.v tied by random specs/argv/env/config (644 quick, 9484 thorough cases) against CmdParse/TaskParse/DefaultUpdate/getopt; int()/custom type conversion is an oracle (Section variable conv) checked against Python int(); non-ASCII lower/strip not modelled',
+         'DESIGN.md 5-C16')
 NOT_YET = {}
 
 def main():
